@@ -89,3 +89,4 @@ package message
 //@     invariant a != nil && a.Exts != nil && a.TouchlessSudo != nil && fresh(a) && fresh(a.Exts) && attrs == ret(parseAttrsLegacy, p0, 0) && attrs != nil &&
 //@       calls(parseAttrsLegacy) == p0 + 1 && arg(parseAttrsLegacy, p0, 0) == attrsStr && ("req" in dom(attrs)) &&
 //@       a.SSHClientVersion == attrs["SSHClientVersion"]
+//@     invariant forall(k#string, visited(k), k in dom(a.Exts))
